@@ -11,13 +11,39 @@ Part == CHOOSE p \in -1..7 : ToString(p) = IOEnv.GEN_PART
 GInit ==
     /\ lx = <<>> /\ tab = "postings" /\ ei = 0 /\ pj = 0
     /\ ctx = [rowid |-> 0, entry |-> 0, posting |-> 0]
-    /\ emitted = <<>> /\ dir = <<>> /\ done = FALSE
+    /\ emitted = <<>> /\ dir = <<>> /\ done = FALSE /\ conn = Conn0
 GNext ==
     /\ Len(lx) < MaxLen
     /\ \E letter \in 1..Len(Alpha) :
           /\ (Len(lx) = 0 /\ Part >= 0) => letter % 8 = Part
           /\ WellFormed(LedgerOf(Append(lx, letter)))
           /\ lx' = Append(lx, letter)
-    /\ UNCHANGED <<tab, ei, pj, ctx, emitted, dir, done>>
-Emit == PrintT(ToJson([lx |-> lx, ledger |-> L, keys |-> Keys, rows |-> Rows(L, Keys)]))
+    /\ UNCHANGED <<tab, ei, pj, ctx, emitted, dir, done, conn>>
+
+(* the statements executed on the connection BEFORE the tables are read: one of 12 histories (dates taken from the
+   ledger) for every second ledger, none for the others -- chosen by the ledger's letters *)
+RECURSIVE SumSeq(_)
+SumSeq(sq) == IF Len(sq) = 0 THEN 0 ELSE Head(sq) + SumSeq(Tail(sq))
+HistOf(ix, M) ==
+    LET mid == IF Len(M) = 0 THEN D0 ELSE M[(Len(M) + 1) \div 2].date
+        end == LastDate(M) + 1
+        clr == Q(NULL, NULL, TRUE)
+        pool == << <<St("agg", clr)>>,
+                   <<St("count", Q(Some(mid), NULL, FALSE))>>,
+                   <<St("rows", Q(NULL, Some(end - 1), FALSE))>>,
+                   <<St("agg", Q(Some(mid), Some(end), TRUE))>>,
+                   <<St("count", Q(NULL, Some(0), FALSE)), St("agg", clr)>>,
+                   <<St("error", clr)>>,
+                   <<St("balances", clr)>>,
+                   <<St("tableref", NoQual), St("count", clr)>>,
+                   <<St("partial", clr)>>,
+                   <<St("entries", NoQual), St("rows", clr), St("default", NoQual)>>,
+                   <<St("count", NoQual), St("count", clr), St("count", clr)>>,
+                   <<St("rows", Q(Some(mid), Some(0), TRUE)), St("count", Q(NULL, Some(mid), FALSE))>> >>
+        h == (SumSeq(ix) + 5 * Len(ix)) % (2 * Len(pool))
+    IN  IF h < Len(pool) THEN pool[h + 1] ELSE <<>>
+Emit ==
+    LET hist == HistOf(lx, L) IN
+    /\ IsHistory(hist)
+    /\ PrintT(ToJson([lx |-> lx, ledger |-> L, keys |-> Keys, hist |-> hist, rows |-> RowsAfter(hist, L, Keys)]))
 =============================================================================
